@@ -266,6 +266,16 @@ Theorem C14_nf_implicit_ret : forall ps r b v pu,
   snf_e (EFn ps r (b ++ [SExpr v]) pu) = snf_e (EFn ps r (b ++ [SRet (Some v)]) pu).
 Proof. exact snf_implicit_ret. Qed.
 
+(* ... and its parser half for operator trees: the statement `e` and the statement `ret e` carry the same tree *)
+Theorem C14_nf_tail_statement : forall e, lower_ok e = true -> dwf e = true ->
+  forall p p' rest rest' ov ov' b b', exists f0, forall f, f0 <= f -> exists c c',
+    go gen_ptab (S f) (QStmt (mkctx p (pp e ++ TK KNewline :: rest) ov b)) = Ok (RS (SExpr (emb e)) c)
+    /\ go gen_ptab (S f) (QStmt (mkctx p' (TK KRet :: pp e ++ TK KNewline :: rest') ov' b')) = Ok (RS (SRet (Some (emb e))) c')
+    /\ tail_ret [nf_s (strip_s (SExpr (emb e)))] = tail_ret [nf_s (strip_s (SRet (Some (emb e))))].
+Proof.
+  intros e. apply (nf_tail_statement gen_ptab gen_ok); [vm_compute; reflexivity|exact C14_do_not_infix].
+Qed.
+
 (* comments and blank lines at the top level: files with the same statements up to EmptyStatements
    (the conclusion of C14_comments_anywhere) have the same normal form *)
 Theorem C14_nf_program : forall ss ss', SimGen.noempty ss = SimGen.noempty ss' -> snf_program ss = snf_program ss'.
@@ -446,6 +456,7 @@ Print Assumptions C14_nf_paren.
 Print Assumptions C14_nf_prime.
 Print Assumptions C14_nf_arrow.
 Print Assumptions C14_nf_implicit_ret.
+Print Assumptions C14_nf_tail_statement.
 Print Assumptions C14_nf_program.
 Print Assumptions C14_layout_token.
 Print Assumptions C14_layout_skip.
